@@ -503,8 +503,12 @@ func (st *State) assume(cond *T) {
 func DefaultInitAllow(path string) int {
 	if strings.HasPrefix(path, "github.com/cloudwego/dynamicgo") {
 		switch {
+		case strings.HasSuffix(path, "/internal/native/types"):
+			return 1
 		case strings.Contains(path, "/internal/native"):
 			return 0
+		case strings.HasSuffix(path, "/internal/warning"):
+			return 2 // prints a notice to stderr at start-up
 		}
 		return 1
 	}
